@@ -362,6 +362,95 @@ theorem rep_dropMany_frame {c : Cfg} {st : St} {L R : List Tk} {ph : Tk} {S : Li
       ∀ g ∈ gapsOf segs', g ∈ gapsOf S :=
   dropMany_full idxs wf hnd hlt
 
+theorem dedup_cons (a : Nat) (l : List Nat) :
+    dedup (a :: l) = if (dedup l).contains a then dedup l else a :: dedup l := rfl
+
+theorem dedup_mem (l : List Nat) (x : Nat) : x ∈ dedup l ↔ x ∈ l := by
+  induction l with
+  | nil => simp [dedup]
+  | cons a l ih =>
+    rw [dedup_cons]
+    by_cases h : (dedup l).contains a = true
+    · rw [if_pos h]
+      have ha : a ∈ dedup l := List.contains_iff_mem.1 h
+      constructor
+      · intro hx; exact List.mem_cons_of_mem _ (ih.1 hx)
+      · intro hx
+        rcases List.mem_cons.1 hx with hxa | hx
+        · subst hxa; exact ha
+        · exact ih.2 hx
+    · rw [if_neg h]
+      simp only [List.mem_cons, ih]
+
+theorem dedup_nodup (l : List Nat) : (dedup l).Nodup := by
+  induction l with
+  | nil => simp [dedup]
+  | cons a l ih =>
+    rw [dedup_cons]
+    by_cases h : (dedup l).contains a = true
+    · rw [if_pos h]; exact ih
+    · rw [if_neg h]
+      refine List.nodup_cons.2 ⟨?_, ih⟩
+      intro hm
+      exact h (List.contains_iff_mem.2 hm)
+
+theorem normIdxs_lt {n : Nat} : ∀ {idxs : List Int} {ks : List Nat}, normIdxs n idxs = some ks → ∀ k ∈ ks, k < n := by
+  intro idxs
+  induction idxs with
+  | nil => intro ks h k hk; simp [normIdxs] at h; subst h; cases hk
+  | cons i is ih =>
+    intro ks h k hk
+    simp only [normIdxs] at h
+    cases hp : pyIndex i n with
+    | none => simp [hp] at h
+    | some k0 =>
+      cases hr : normIdxs n is with
+      | none => simp [hp, hr] at h
+      | some ks0 =>
+        simp [hp, hr] at h
+        subst h
+        rcases List.mem_cons.1 hk with rfl | hk
+        · unfold pyIndex at hp
+          split at hp
+          · split at hp
+            · injection hp with hp; omega
+            · cases hp
+          · split at hp
+            · injection hp with hp; omega
+            · cases hp
+        · exact ih hr k hk
+
+/-- **`drop_many(indexes)` for ANY indexes** (negative, repeated, in any order, out of range): either one of them is out of
+range and the call is refused - in the model before anything happened, in the source because the range check is a loop
+of its own in front of the first deletion (`Obligations/Refusals`) - or the designated items, each once, are removed in
+the same frame, every surviving item untouched and every remaining gap an old gap. -/
+theorem rep_dropManyPub_frame {c : Cfg} {st : St} {L R : List Tk} {ph : Tk} {S : List Seg} (idxs : List Int)
+    (wf : RegionWF c st.store st.items L R ph S) (hlen : st.items.length = S.length) :
+    (normIdxs st.items.length idxs = none ∧ dropManyPub c st idxs = .error "IndexError") ∨
+    ∃ ks segs', normIdxs st.items.length idxs = some ks ∧
+      dropManyPub c st idxs = .ok ⟨L ++ layout ph segs' ++ R, spans segs', st.ctr⟩ ∧
+      RegionWF c (L ++ layout ph segs' ++ R) (spans segs') L R ph segs' ∧
+      itemsOf segs' = keepIdx (fun j => ks.contains j) 0 (itemsOf S) ∧
+      ∀ g ∈ gapsOf segs', g ∈ gapsOf S := by
+  cases hn : normIdxs st.items.length idxs with
+  | none => exact Or.inl ⟨rfl, by simp [dropManyPub, hn]⟩
+  | some ks =>
+    refine Or.inr ⟨ks, ?_⟩
+    have hlt : ∀ i ∈ dedup ks, i < S.length := by
+      intro i hi
+      have := normIdxs_lt hn i ((dedup_mem ks i).1 hi)
+      omega
+    obtain ⟨segs', h1, h2, h3, h4⟩ := rep_dropMany_frame (dedup ks) wf (dedup_nodup ks) hlt
+    refine ⟨segs', rfl, by simp [dropManyPub, hn, h1], h2, ?_, h4⟩
+    rw [h3]
+    have : (fun j => (dedup ks).contains j) = fun j => ks.contains j := by
+      funext j
+      by_cases hj : j ∈ ks
+      · simp [hj, (dedup_mem ks j).2 hj]
+      · have : j ∉ dedup ks := fun h => hj ((dedup_mem ks j).1 h)
+        simp [hj, this]
+    rw [this]
+
 /-- `del self[a:b:k]` with `k ≠ 1` (every `a`, `b`, every such step). -/
 theorem rep_delete_ext_frame {c : Cfg} {st : St} {L R : List Tk} {ph : Tk} {S : List Seg}
     (start stop step : Option Int) {s e k : Int}
